@@ -350,22 +350,7 @@ pub fn find(args: &[String]) -> i32 {
           let nseeds: u64 = if n >= 4 { 6000 } else { 1500 };
           for seed in 0..nseeds {
             let base = crate::u10b::gen_text(seed);
-            let mut variants = vec![base.clone()];
-            for (every, rep) in [(3usize, "\r\n"), (4, " ; c\u{20ac}\u{e9}\n\t"), (5, "   "), (2, "\n\n")] {
-              let mut out = String::new();
-              let mut k2 = seed as usize;
-              for ch in base.chars() {
-                if ch == ' ' {
-                  k2 += 1;
-                  if k2 % every == 0 {
-                    out.push_str(rep);
-                    continue;
-                  }
-                }
-                out.push(ch);
-              }
-              variants.push(out);
-            }
+            let variants = crate::u10b::layouts(&base, seed);
             for doc in variants {
               tried += 1;
               match check_doc(&doc) {
